@@ -65,6 +65,94 @@ def product_siblings(chk, v):
     return a, s
 
 
+def _mentions_call(t, name):
+    return any(st[0] in ("call", "obj") and st[1] == name for st in sym.subterms(t))
+
+
+def _floor_pow2_over(t, M):
+    """t == c * (2^a / M) (integer division) -> (c, a), else None"""
+    t = _strip(t)
+    items = sym.poly_items(t) if t[0] == "poly" else None
+    c, core = 1, t
+    if items is not None:
+        if len(items) != 1 or len(items[0][0]) != 1:
+            return None
+        c, core = items[0][1], _strip(items[0][0][0])
+    if core[0] == "op" and core[1] == "/" and _strip(core[3]) == M:
+        num = sym.const_value(_strip(core[2]))
+        if num is None and _strip(core[2])[0] == "op" and _strip(core[2])[1] == "<<":
+            a0, b0 = sym.const_value(_strip(core[2])[2]), sym.const_value(_strip(core[2])[3])
+            num = a0 << b0 if a0 is not None and b0 is not None else None
+        if num is not None and num > 0 and num & (num - 1) == 0:
+            return c, num.bit_length() - 1
+    return None
+
+
+def _strip(t):
+    while t and t[0] == "cast":
+        t = t[2]
+    return t
+
+
+def inline_rounding(chk, v, st, phase, M):
+    """tLweApproxPhase rounds in line instead of calling approxPhase: compare its grid with approxPhase's.
+    Both have the form  X - X % I  with X = lift(phase) + I/2 and I = c*floor(2^a / Msize); approxPhase lifts the phase by
+    2^32 (a = 63, c = 2, result >> 32).  The grids coincide for EVERY Msize only if I*2^(32-shift) is the same integer
+    expression: c*floor(2^a/M)*2^k == c'*floor(2^a'/M) for all M forces k = 0 (for M not dividing 2^a the left side is a
+    multiple of 2^k and the right side differs from it by up to (2^k - 1)*c: e.g. M = 3).
+    -> (ok, reason)"""
+    from sa.pipeline import AnalysisBroken
+    from rules import c13
+    ap = v.fn("approxPhase")
+    aval = c13.ret_value(v, ap)
+    if aval is None:
+        raise AnalysisBroken("approxPhase: not a single closed return expression")
+    aph, aM = sym.sym(ap.params[0]["n"]), sym.sym(ap.params[1]["n"])
+    aval = _strip(sym.subst(aval, {aph: phase, aM: M}))
+    val = _strip(st["val"])
+    if aval == val:
+        return True, "the in-line expression is approxPhase's own return expression"
+
+    def grid(t):
+        """-> (c, a, lift shift, result shift) of  ((lift(phase) + I/2) - (...) % I) >> r"""
+        r = 0
+        t = _strip(t)
+        if t[0] == "op" and t[1] == ">>" and sym.const_value(t[3]) is not None:
+            r, t = sym.const_value(t[3]), _strip(t[2])
+        mods = [a for a in sym.atoms_top(t) if a[0] == "op" and a[1] == "%"]
+        if len(mods) != 1:
+            return None
+        X, Iv = mods[0][2], mods[0][3]
+        if sym.add(t, mods[0]) != X:
+            return None
+        fa = _floor_pow2_over(Iv, M)
+        if fa is None:
+            return None
+        # lift: coefficient of the phase inside X
+        ph_atoms = [a for a in sym.atoms_top(X) if sym.contains(a, phase)]
+        if len(ph_atoms) != 1:
+            return None
+        lin_ = sym.linear_in(X, ph_atoms[0])
+        cv = sym.const_value(lin_[0]) if lin_ is not None else None
+        if cv is None or cv <= 0 or cv & (cv - 1):
+            return None
+        return fa[0], fa[1], cv.bit_length() - 1, r
+    g_ref, g_in = grid(aval), grid(val)
+    if g_ref is None or g_in is None:
+        raise AnalysisBroken("tLweApproxPhase: in-line rounding expression %s not recognised" % sym.show(val)[:100])
+    (c1, a1, l1, r1), (c2, a2, l2, r2) = g_ref, g_in
+    # spacing in torus32 units: c*2^a / (M * 2^lift)
+    if (c1 * (1 << a1)) * (1 << l2) != (c2 * (1 << a2)) * (1 << l1) or l1 - r1 != l2 - r2:
+        return False, ["rounds to multiples of %d*floor(2^%d/Msize)/2^%d, approxPhase rounds to multiples of %d*floor(2^%d/Msize)/2^%d: a different grid" % (
+            c2, a2, l2, c1, a1, l1)]
+    if (c1, a1, l1) != (c2, a2, l2):
+        return False, ["the interval is %d*floor(2^%d/Msize) on the phase lifted by 2^%d, approxPhase uses %d*floor(2^%d/Msize) on the phase lifted by 2^%d: "
+                       "same nominal spacing, but the floor is taken %d bits earlier, so for every Msize that does not divide 2^%d (e.g. 3) the "
+                       "grid drifts away from the message grid k/Msize used by modSwitchToTorus32 and approxPhase (decryption returns off-grid values)" % (
+                           c2, a2, l2, c1, a1, l1, a1 - a2, a2)]
+    return True, "same interval expression as approxPhase"
+
+
 def run(chk):
     prog = Program()
     chk.explanation = (
@@ -413,5 +501,11 @@ def run(chk):
         oka = len(st) == 1 and len(st[0]["loops"]) == 1 and (st[0]["loops"][0]["lo"], st[0]["loops"][0]["cmp"], st[0]["loops"][0]["hi"]) == (ZERO, "<", sym.sym(Np)) \
             and st[0]["val"] == ("call", "approxPhase", (sym.idx(P(p_, "coefsT"), st[0]["loops"][0]["var"]), sym.sym(Ms))) \
             and st[0]["lv"] == sym.idx(P(m_, "coefsT"), st[0]["loops"][0]["var"])
+        why_a = [summ.show_piece(p)[:100] for p in st]
+        if not oka and len(st) == 1 and len(st[0]["loops"]) == 1 and not _mentions_call(st[0]["val"], "approxPhase"):
+            oka, why_a = inline_rounding(chk, v, st[0], sym.idx(P(p_, "coefsT"), st[0]["loops"][0]["var"]), sym.sym(Ms))
+            if oka:
+                lp0 = st[0]["loops"][0]
+                oka = (lp0["lo"], lp0["cmp"], lp0["hi"]) == (ZERO, "<", sym.sym(Np)) and st[0]["lv"] == sym.idx(P(m_, "coefsT"), lp0["var"])
         chk.require(oka, "R6", "tLweApproxPhase rounds each of the N coefficients with the caller's Msize", where=ap.where,
-                    ok="message[i] = approxPhase(phase[i], Msize), i<N", bad=[summ.show_piece(p)[:100] for p in st], variant=vn)
+                    ok="message[i] = approxPhase(phase[i], Msize), i<N", bad=why_a, variant=vn)
